@@ -587,6 +587,7 @@ fn profile_c07() -> Profile {
     p.boundary_outputs = 150;
     p.fine_value_limit = 350;
     p.fine_cpb = 250;
+    p.adaptive = 250;
     p.tight = 450;
     p
 }
